@@ -191,7 +191,8 @@ def evaluate_sequential(case, runner):
     ref = make_ref(case)
     cmds = split_history(H)
     top = [c for c in cmds if not c["callback"]]
-    script = [c for c in case["commands"] if c[0] not in ("settle", "poll", "sleep")]
+    script = [c for c in case["commands"]
+              if c[0] not in ("settle", "poll", "sleep", "poll_stopped", "drain")]
     quiet_after = {}
     # map command index -> following quiet record
     last_cmd = None
@@ -340,3 +341,40 @@ def replay_form(case, runner):
     s2["from"] = sc.get("kind")
     c["sched"] = s2
     return c
+
+
+def detsim_stats(res, case, r):
+    """Uniform reach measurements of a detsim run for the evidence file."""
+    cnt = res.setdefault("counters", {})
+    sums = res.setdefault("sums", {})
+    sets = res.setdefault("sets", {})
+    det = r.det
+    kind = (case.get("sched") or {}).get("kind", "S0")
+    cnt["strategy:" + kind] = cnt.get("strategy:" + kind, 0) + 1
+    for k, v in r.faults.items():
+        cnt["fault:" + k] = cnt.get("fault:" + k, 0) + v
+    for name, v in (("preempt", det.n_switch), ("timer_fire", det.n_timer_fire),
+                    ("stall", det.n_stall), ("clock_jump", det.n_fault_clock_jump)):
+        if v:
+            cnt["fault:" + name] = cnt.get("fault:" + name, 0) + v
+    sums["sim_wall_seconds"] = sums.get("sim_wall_seconds", 0.0) + (det.clock - det.t0)
+    sums["yield_points"] = sums.get("yield_points", 0) + det.step
+    H = r.hist.H
+    if det.sites:
+        sets.setdefault("interleavings", []).append(
+            hash_sites(det.sites, case.get("commands")))
+    st = sets.setdefault("state_tuples", [])
+    seen = set(st)
+    for h in H:
+        if h[0] == "st":
+            t = "%s/%s>%s/%s@%s:%s" % (h[4], h[5], h[6], h[7], "run" if h[2] else "caller",
+                                        (h[3] or "-").split("#")[0])
+            if t not in seen:
+                seen.add(t)
+                st.append(t)
+    return res
+
+
+def hash_sites(sites, commands):
+    from vf import common
+    return common.digest8([list(map(list, sites)), commands])
